@@ -184,8 +184,11 @@ def run_full(ctx, cases, impl, model_exe):
     return fails
 
 def block_model(ctx):
-    vcheck.coq_build(ctx["log"], None, MODEL_BLOCK)
-    return vcheck.build_model(ctx["log"], MODEL_BLOCK)
+    """second model driver (group amgb).  Every .vo that coq/Extract_amgb.v needs is in the dependency
+    closure of Properties_C03.v / Extract_amg.v, which the runner has built already."""
+    if "model_amgb" not in ctx:
+        ctx["model_amgb"] = vcheck.build_model(ctx["log"], MODEL_BLOCK)
+    return ctx["model_amgb"]
 
 def run(ctx, cases_override=None):
     bfails = run_block(ctx, cases_override)
